@@ -99,7 +99,7 @@ def gen_callable(r, idx, profile='mixed'):
             dflt = lit_src(r, ann)[0] if ann is not None else '5'
         pname = f'p{i}'
         if r.random() < 0.08 and kind not in ('class_class',):      # cls / args / kwargs used as ordinary parameter names
-            cand = [n for n in ('cls', 'args', 'kwargs') if n not in [q[0] for q in params]]
+            cand = [n for n in ('cls', 'args', 'kwargs', 'context', 'func', 'f', 'call', 'value', 'type_', 'err', 'key', 'result') if n not in [q[0] for q in params]]
             if cand:
                 pname = r.choice(cand)
         params.append((pname, ann, dflt))
@@ -466,6 +466,7 @@ def make_caller(names):
     exec(compile(CALLER_SRC, f'<pedcaller_{_callers_made[0]}>', 'exec'), m.__dict__)
     if names:
         m.__dict__.update(K.CTX)
+    m.__dict__.update(K.ZCTX)          # names bound to non-types (a module, an int, a function, None, a string)
     return m
 
 
